@@ -61,7 +61,7 @@ def chain():
     A, B, C, D = S + 'A1', S + 'B1', S + 'C1', S + 'D1'
     return ModelSpec(
         'chain',
-        {A: 2, B: '=A1+1', C: '=B1*2', D: '=C1-A1'},
+        {A: 2, B: '=A1+1', C: '=B1*2', D: '=C1-A1+E9'},   # E9 does not exist
         [A], [0, 5],
         {B: lambda g: g(A) + 1, C: lambda g: g(B) * 2,
          D: lambda g: g(C) - g(A)})
